@@ -420,6 +420,12 @@ __fixup_fst(struct dseq_clo_s *clo)
 	while (__in_range_p(tmp, clo)) {
 		old = tmp;
 		tmp = __seq_next(tmp, clo);
+		if (!dt_sandwich_only_t_p(tmp) &&
+		    dt_dtcmp(tmp, old) != -clo->dir) {
+			/* not getting anywhere, the increment has been
+			 * negated here so we go against DIR */
+			break;
+		}
 	}
 	/* final checks */
 	old = __seq_this(old, clo);
@@ -706,13 +712,23 @@ increment must not be naught");
 		tmp = __seq_this(clo.fst, &clo);
 	}
 
-	for (; __in_range_p(dt_fixup(tmp), &clo); tmp = __seq_next(tmp, &clo)) {
+	while (__in_range_p(dt_fixup(tmp), &clo)) {
 		struct dt_dt_s tgt = tmp;
+		struct dt_dt_s nxt;
 
 		if (LIKELY(ofmt == NULL)) {
 			tgt = dt_dtconv(tgttyp, tmp);
 		}
 		dt_io_write(tgt, ofmt, NULL, '\n');
+
+		nxt = __seq_next(tmp, &clo);
+		if (!dt_sandwich_only_t_p(tmp) &&
+		    dt_dtcmp(nxt, tmp) != clo.dir) {
+			/* the increment doesn't take us any further,
+			 * e.g. a day added to a Friday's business day */
+			break;
+		}
+		tmp = nxt;
 	}
 
 out:
